@@ -173,6 +173,37 @@ pub fn run_store_and_http() -> (Vec<F>, u64, Vec<String>) {
             }
             got.push((if chunked { "POST /topic chunked" } else { "POST /topic" }, res));
         }
+        // requests that are refused (or cut) while carrying bytes that visible frames already
+        // reference: whatever the fault path does, that content stays retrievable
+        if !bytes.is_empty() {
+            let never = scru128::Scru128Id::from_u128((3u128 << 100) | 99).to_string();
+            let nul_frame = serde_json::to_vec(&json!({"id": scru128::new().to_string(), "context_id": xs::store::ZERO_CONTEXT.to_string(), "topic": "c10\u{0}nul", "hash": want})).unwrap();
+            let refused: Vec<(&str, Req)> = vec![
+                ("POST /topic into an unregistered context", Req::new("POST", &format!("/c10.rej?context={}", never)).body(&bytes)),
+                ("POST /topic into an unregistered context, chunked", Req::new("POST", &format!("/c10.rej?context={}", never)).body(&bytes).chunked()),
+                ("POST /topic with a NUL topic", Req::new("POST", "/c10%00rej").body(&bytes)),
+                ("POST /topic with a malformed ttl", Req::new("POST", "/c10.rej?ttl=bogus").body(&bytes)),
+                ("POST /topic with a malformed xs-meta", Req::new("POST", "/c10.rej").header("xs-meta", b"%%%").body(&bytes)),
+                ("POST /topic cut mid-body", Req::new("POST", "/c10.rej").body(&bytes).truncated(bytes.len() / 2)),
+                ("POST /cas cut mid-body", Req::new("POST", "/cas").body(&bytes).truncated(bytes.len() / 2)),
+                ("POST /import of a NUL-topic frame with that hash", Req::new("POST", "/import").body(&nul_frame)),
+            ];
+            for (what, req) in refused {
+                evals += 1;
+                let r = crate::http::once(&server.sock, &req);
+                outcomes.push(format!("{}:{}:{}", name, what, r.status / 100));
+                if r.status == 200 && !what.contains("cut") {
+                    // not refused after all: nothing to check here (C13 / C05 / C12 own acceptance)
+                }
+                match want.parse::<ssri::Integrity>().ok().and_then(|i| store.cas_read_sync(&i).ok()) {
+                    Some(c) if c == bytes => {}
+                    _ => {
+                        fs.push(F { kind: "cas.lost_on_reject".into(), msg: format!("after {} (answered {}) carrying the bytes of input {:?}, the content {} of the frames that already reference it is no longer retrievable", what, r.status, name, want) });
+                        break;
+                    }
+                }
+            }
+        }
         for (entry, res) in &got {
             evals += 1;
             match res {
